@@ -21,15 +21,22 @@ PROPS_FILE = "theories/Props/C03.v"
 EXTRACT = ("theories/Extract/XC03.v", "c03", ["entry_check_z"])
 PYX = {"_propagate.pyx": "*", "heap.pxd": "*"}
 CASE_TIMEOUT = 60
-JOBS = int(os.environ.get("VERIF_C03_JOBS", "5"))
+JOBS = int(os.environ.get("VERIF_C03_JOBS", str(max(4, min(14, (os.cpu_count() or 8) - 2)))))
 
-RULE = ("corpus (F7 witness, hand-written edge cases) first; then random cases: shapes 1x1..10x10 quick "
-        "(..40x40 thorough, skewed to 1xN/Nx1/2x2/3x3) x images {constant, 4-level quantised, dyadic, random, "
-        "blocky tenths (inexact sums, the F7 class), integer (exact stream)} x seeds {none, one, adjacent different, "
-        "sparse, dense, outside the mask} x masks {full, random, split by an unmasked wall} x weights "
-        "{0, 2^-10, 1, 1000, random} x array layouts {C, Fortran, strided views, int32/uint8 dtypes}; one case whose initial queue exceeds 1000 rows so the first push reallocates; "
-        "non-trivial = at least one non-seed pixel is reached and (two different seed labels are present or >= 5 "
-        "pixels are reached); distinct by hash of the case")
+RULE = ("corpus first: F7 witness, hand-written edge cases, 11 targeted key-sensitive scenes (1-ulp ties found with "
+        "the reference model under keys >>1 / >>2 / full), 3 malformed calls (mask None, shape mismatches: must raise); "
+        "then random scenes: shapes 1x1..7x7 (80 %), ..12x12 (thorough: ..40x40), skewed to 1xN/Nx1/2x2/3x3, x images "
+        "{constant, 4-level quantised, dyadic, random (half float32-representable), blocky tenths (inexact sums, the F7 "
+        "class), integer (exact stream)} x seeds {none, one, adjacent different, sparse, dense, sparse numbering, "
+        "boolean, values at the label dtype's maximum capped at 2^31-1, seeds outside the mask} x masks {full, random, "
+        "wall, bounding box short of the top / bottom / left / right edge with a seed on that edge} x weights {0, 2^-10, "
+        "1, 1000, random, negative}; every scene dressed with an image dtype (float64/32, int64/32/8, uint16/8, bool), a "
+        "label dtype (int8..int64, uint8..uint32, bool), a mask dtype (bool, uint8 0/1, uint8 0/255), a layout (C, "
+        "Fortran, strided view) and a weight form (float, int, np.float32, np.float64); every case is called twice in "
+        "the same process with another call in between; 16 F7-class scenes; the constructed realloc case (>1000 initial "
+        "rows); thin images 220x3 and 3x220 (thorough 600x3, 3x600, 60x60 queue>1000); non-trivial = at least one "
+        "non-seed pixel is reached and (two different seed labels are present or >= 5 pixels are reached); distinct by "
+        "hash of the case")
 TRUSTED = [
     "Coq kernel primitive floats (PrimFloat add/sub/mul/sqrt/ltb/eqb, of_uint63, ldshiftexp, frshiftexp, "
     "normfr_mantissa) taken as IEEE-754 binary64 round-to-nearest-even; validated on every run against NumPy on "
@@ -37,16 +44,31 @@ TRUSTED = [
     "modelled, not verified: gcc -O2 on x86-64 emits IEEE-exact, uncontracted double arithmetic (no FMA at the "
     "baseline ISA); little-endian layout of doubles; realloc succeeds and preserves contents; the pointer array "
     "of heap.pxd is represented by the sequence of rows it points to",
-    "binary64 instance of the checker theorem: hypothesis 'float addition of non-negative doubles is monotone' "
-    "(b64_add_monotone) is an explicit premise of C03_prop_check_b64_sound, true of IEEE-754 but not proved here; "
-    "on [0,+inf] the order of bit patterns is the numeric order (IEEE-754 layout)",
+    "C03_b64_add_monotone, C03_prop_check_b64_sound_closed (float addition of non-negative doubles is monotone, "
+    "now proved) and C03_dijkstra_optimal_full64 rest on Coq's FloatAxioms add_spec, ltb_spec, eqb_spec, "
+    "Prim2SF_valid, SF2Prim_Prim2SF, Prim2SF_SF2Prim (the kernel's "
+    "primitive floats implement the IEEE-754 specification SpecFloat) and on the axioms of Coq's classical reals used "
+    "by Flocq: Classical_Prop.classic, ClassicalDedekindReals.sig_forall_dec / sig_not_dec, "
+    "FunctionalExtensionality.functional_extensionality_dep; Flocq 4 (round_le, Bplus_correct, Bcompare_correct) is "
+    "checked by Coq, not trusted",
     "the tight-chain hint given to the checker is computed by untrusted Python; it is verified by the checker",
 ]
 ASSUMPTIONS = [
-    "labels are non-negative integers < 2^31, image values are finite doubles, mask is boolean, weight is finite",
+    "labels are non-negative integers < 2^31 (larger uint32/int64 values wrap in the int32 output: candidate finding "
+    "C03-L1, excluded from the generator), image values are finite, mask is boolean or 0/nonzero uint8, weight is finite",
     "image has at least one row and one column",
 ]
 EXHAUSTIVE = {"quick": False, "thorough": False}
+# axioms behind C03_b64_add_monotone / C03_prop_check_b64_sound_closed only (every other theorem is closed
+# or lists kernel primitives): Coq's specification of primitive floats and the classical real numbers that
+# Flocq's rounding theory is built on
+_AX = ["add_spec", "Prim2SF_valid", "SF2Prim_Prim2SF", "Prim2SF_SF2Prim", "ltb_spec", "eqb_spec",
+       "sig_not_dec", "sig_forall_dec", "functional_extensionality_dep", "classic"]
+ALLOWED_AXIOMS = set(_AX) | {"FloatAxioms." + a for a in _AX[:6]} | {"Coq.Floats.FloatAxioms." + a for a in _AX[:6]} | {
+    "ClassicalDedekindReals.sig_not_dec", "ClassicalDedekindReals.sig_forall_dec",
+    "FunctionalExtensionality.functional_extensionality_dep", "Classical_Prop.classic",
+    "Coq.Reals.ClassicalDedekindReals.sig_not_dec", "Coq.Reals.ClassicalDedekindReals.sig_forall_dec",
+    "Coq.Logic.FunctionalExtensionality.functional_extensionality_dep", "Coq.Logic.Classical_Prop.classic"}
 
 NEG1 = 0xBFF0000000000000
 DI = (-1, -1, -1, 0, 0, 1, 1, 1)
@@ -80,11 +102,36 @@ def mk_case(image, labels, mask, weight, cls):
 
 # ------------------------------------------------------------------------------- implementation
 
-def impl(case):
-    from centrosome.propagate import propagate
-    image = bits_arr(case["image"]).reshape(case["m"], case["n"])
-    labels = np.array(case["labels"], dtype=int).reshape(case["m"], case["n"])
-    mask = np.array(case["mask"], dtype=bool).reshape(case["m"], case["n"])
+IMG_DTYPES = ["float64", "float32", "int64", "int32", "uint16", "uint8", "int8", "bool"]
+LAB_DTYPES = ["int64", "int32", "int16", "int8", "uint32", "uint16", "uint8", "bool"]
+
+
+def lab_max(dt):
+    """largest label value the check uses with labels of dtype dt (the output is int32: values >= 2^31
+    wrap - candidate finding C03-L1 - and are excluded)"""
+    return 1 if dt == "bool" else int(min(np.iinfo(np.dtype(dt)).max, 2 ** 31 - 1))
+
+
+def _build(case):
+    m, n = case["m"], case["n"]
+    image = bits_arr(case["image"]).reshape(m, n)
+    idt = case.get("idt", "float64")
+    if idt != "float64":
+        conv = image.astype(idt)
+        assert np.array_equal(conv.astype(np.float64), image), "generator bug: image not representable in " + idt
+        image = conv
+    labels = np.array(case["labels"], dtype=np.int64).reshape(m, n)
+    ldt = case.get("ldt", "int64")
+    if ldt != "int64":
+        conv = labels.astype(ldt)
+        assert np.array_equal(conv.astype(np.int64), labels), "generator bug: labels not representable in " + ldt
+        labels = conv
+    mask = np.array(case["mask"], dtype=bool).reshape(m, n)
+    mdt = case.get("mdt", "bool")
+    if mdt == "uint8":
+        mask = mask.astype(np.uint8)
+    elif mdt == "u255":
+        mask = mask.astype(np.uint8) * 255
     lay = case.get("layout", "C")
     if lay == "F":                       # Fortran-ordered inputs
         image, labels, mask = np.asfortranarray(image), np.asfortranarray(labels), np.asfortranarray(mask)
@@ -94,18 +141,61 @@ def impl(case):
             big[1::2, 2::3][:a.shape[0], :a.shape[1]] = a
             return big[1::2, 2::3][:a.shape[0], :a.shape[1]]
         image, labels, mask = view(image), view(labels), view(mask)
-    elif lay == "dtypes":                # int32 labels, uint8 0/1 mask
+    elif lay == "dtypes":                # (round 1 class) int32 labels, uint8 0/1 mask
         labels, mask = labels.astype(np.int32), mask.astype(np.uint8)
+    w = b2f(case["weight"])
+    wp = case.get("wpass", "float")
+    if wp == "int":
+        assert w == int(w); w = int(w)
+    elif wp == "np32":
+        assert float(np.float32(w)) == w; w = np.float32(w)
+    elif wp == "np64":
+        w = np.float64(w)
+    return image, labels, mask, w
+
+
+def impl(case):
+    from centrosome.propagate import propagate
+    image, labels, mask, w = _build(case)
+    mal = case.get("malformed")
+    if mal:                              # malformed stream: the call must be rejected by an exception
+        if mal == "mask_none":
+            mask = None
+        elif mal == "labels_shape":
+            labels = labels[:, :-1] if labels.shape[1] > 1 else np.zeros((labels.shape[0], 2), labels.dtype)
+        elif mal == "mask_shape":
+            mask = mask[:-1, :] if mask.shape[0] > 1 else np.zeros((2, mask.shape[1]), mask.dtype)
+        try:
+            propagate(image, labels, mask, w)
+        except Exception as e:           # noqa
+            return {"rejected": type(e).__name__}
+        return {"rejected": None}
     image0, labels0, mask0 = image.copy(), labels.copy(), mask.copy()
-    lo, d = propagate(image, labels, mask, b2f(case["weight"]))
-    ok_in = bool(np.array_equal(image0.view(np.uint64), image.view(np.uint64))
-                 and np.array_equal(labels0, labels) and np.array_equal(mask0, mask))
+    lo, d = propagate(image, labels, mask, w)
+    ok_in = bool(np.array_equal(image0, image) and np.array_equal(labels0, labels) and np.array_equal(mask0, mask))
+    # several calls in one process: another scene in between, then the same call again
+    other = np.arange(6.0).reshape(2, 3)
+    propagate(other, np.array([[0, 2, 0], [0, 0, 1]]), np.ones((2, 3), bool), 0.25)
+    lo2, d2 = propagate(image, labels, mask, w)
+    same = bool(np.array_equal(lo, lo2) and np.array_equal(np.asarray(d).view(np.uint64), np.asarray(d2).view(np.uint64)))
     return {"lo": np.asarray(lo).astype(int).tolist(), "d": arr_bits(d), "shape": list(np.asarray(lo).shape),
-            "inputs_untouched": ok_in}
+            "inputs_untouched": ok_in, "repeat_same": same,
+            "out_dtypes": [str(np.asarray(lo).dtype), str(np.asarray(d).dtype)]}
 
 
 def _bad(o):
     return (not isinstance(o, dict)) or "exc" in o or "crash" in o or "lo" not in o
+
+
+def _malformed_verdict(case, o):
+    """malformed stream: shape mismatches must raise ValueError, mask=None any exception"""
+    if not isinstance(o, dict) or "rejected" not in o:
+        return "malformed call (%s): unexpected outcome %s" % (case["malformed"], str(o)[:200])
+    if o["rejected"] is None:
+        return "malformed call (%s) was accepted" % case["malformed"]
+    if case["malformed"] != "mask_none" and o["rejected"] != "ValueError":
+        return "malformed call (%s) raised %s, not ValueError" % (case["malformed"], o["rejected"])
+    return None
 
 
 # ------------------------------------------------------------------------------- hint (untrusted)
@@ -162,7 +252,7 @@ def _sx(v):
     return "I %d" % v if v >= 0 else "I (%d)" % v
 
 
-def coq_eval(ctx, module, entry, args, tag, weights=None, timeout=1500):
+def coq_eval(ctx, module, entry, args, tag, weights=None, timeout=1500, min_w=60.0):
     """Evaluate [as_Zs (entry arg)] by vm_compute for every arg; shards of bounded size run in
     parallel.  Returns a list of int lists (None where the Coq run failed)."""
     from harness import core
@@ -173,7 +263,8 @@ def coq_eval(ctx, module, entry, args, tag, weights=None, timeout=1500):
     weights = weights or [1] * n
     order = sorted(range(n), key=lambda k: -weights[k])
     total = float(sum(weights)) or 1.0
-    nshards = max(1, min(n, max(JOBS * 3, (n + 99) // 100)))
+    nshards = max(1, min(n, JOBS * 2, int(total / min_w) + 1))
+    nshards = max(nshards, (n + 199) // 200)
     budget = total / nshards
     shards, cur, acc = [], [], 0.0
     for k in order:
@@ -256,7 +347,7 @@ def evaluate_cases(ctx, cases, outs):
     if todo:
         args = [_arg(cases[k]) + [outs[k]["lo"], outs[k]["d"], make_hint(cases[k], outs[k])] for k in todo]
         wts = [(cases[k]["m"] * cases[k]["n"]) ** 1.5 + 5 for k in todo]
-        r = coq_eval(ctx, "Spec.PropCheck", "entry_eval", args, "ev", wts)
+        r = coq_eval(ctx, "Spec.PropCheck", "entry_eval", args, "ev", wts, min_w=4000.0)
         zi = [k for k in todo if _is_exact(cases[k])]
         zres = {}
         if zi:
@@ -283,7 +374,7 @@ def evaluate_cases(ctx, cases, outs):
               and "full64:" + _key(cases[k], None) not in cache]
         if fi:
             fr = coq_eval(ctx, "Spec.PropCheck", "entry_model_passes", [_arg(cases[k], 1) for k in fi], "attr",
-                          [(cases[k]["m"] * cases[k]["n"]) ** 2 for k in fi])
+                          [(cases[k]["m"] * cases[k]["n"]) ** 2 for k in fi], min_w=2000.0)
             for k, v in zip(fi, fr):
                 cache["full64:" + _key(cases[k], None)] = v
     return [cache.get(_key(c, o)) if _well_formed(c, o) else None for c, o in zip(cases, outs)]
@@ -294,6 +385,8 @@ def model(ctx, cases, outs):
 
 
 def compare(case, out, mout):
+    if case.get("malformed"):
+        return _malformed_verdict(case, out)
     if _bad(out):
         return "implementation raised/crashed: %s" % (str(out)[:300],)
     if not _well_formed(case, out):
@@ -309,12 +402,18 @@ def check(ctx, cases, outs):
     ev = evaluate_cases(ctx, cases, outs)
     res = []
     for c, o, e in zip(cases, outs, ev):
-        if _bad(o):
+        if c.get("malformed"):
+            res.append(_malformed_verdict(c, o))
+        elif _bad(o):
             res.append("implementation raised/crashed on a valid input: %s" % (str(o)[:300],))
         elif not _well_formed(c, o):
             res.append("output arrays have the wrong shape")
         elif not o.get("inputs_untouched", True):
             res.append("propagate modified one of its input arrays")
+        elif not o.get("repeat_same", True):
+            res.append("the same call repeated in the same process (another call in between) gave a different result")
+        elif o.get("out_dtypes", ["int32", "float64"]) != ["int32", "float64"]:
+            res.append("output dtypes are %s, not int32/float64" % (o.get("out_dtypes"),))
         elif e is None:
             res.append(None)     # Coq run failed: reported through compare() as a broken correspondence
         elif e[1] != 1:
@@ -385,7 +484,7 @@ def _image(rng, m, n, kind):
     if kind == "dyadic":
         return rng.randint(0, 1024, (m, n)) / 1024.0
     if kind == "rand":
-        return rng.rand(m, n)
+        return rng.rand(m, n) if rng.rand() < 0.5 else rng.rand(m, n).astype(np.float32).astype(np.float64)
     if kind == "int":
         return rng.randint(0, int(rng.choice([2, 4, 50])), (m, n)).astype(float)
     # blocky tenths: many equal, inexactly summed costs (the F7 class)
@@ -415,8 +514,10 @@ def _labels(rng, m, n, kind):
             lab[rng.randint(m), rng.randint(n)] = 1
     elif kind == "dense":
         lab = (rng.rand(m, n) < 0.45) * rng.randint(1, 6, (m, n))
-    elif kind == "big":
-        lab = (rng.rand(m, n) < 0.1) * rng.choice([1, 7, 2 ** 31 - 1, 1000000], size=(m, n))
+    elif kind == "numbering":           # sparse numbering: few objects, label numbers far apart
+        lab = (rng.rand(m, n) < 0.12) * rng.choice([3, 17, 100, 101, 1000], size=(m, n))
+        if not lab.any():
+            lab[rng.randint(m), rng.randint(n)] = 17
     return lab
 
 
@@ -425,6 +526,21 @@ def _mask(rng, m, n, kind):
         return np.ones((m, n), bool)
     if kind == "random":
         return rng.rand(m, n) < float(rng.choice([0.5, 0.75, 0.9]))
+    if kind.startswith("bbox:"):        # bounding box of the mask stops short of ONE image edge
+        mk = np.ones((m, n), bool)
+        side = kind[5:]
+        k = 1 if rng.rand() < 0.7 else 2
+        if side == "top":
+            mk[:min(k, m - 1), :] = False
+        elif side == "bottom":
+            mk[max(m - k, 1):, :] = False
+        elif side == "left":
+            mk[:, :min(k, n - 1)] = False
+        else:
+            mk[:, max(n - k, 1):] = False
+        if rng.rand() < 0.25:
+            mk &= rng.rand(m, n) < 0.92
+        return mk
     mk = np.ones((m, n), bool)      # wall: disconnected mask
     if rng.rand() < 0.5:
         mk[rng.randint(m), :] = False
@@ -435,22 +551,95 @@ def _mask(rng, m, n, kind):
     return mk
 
 
+def _dress(rng, c, img_kind):
+    """dtype / layout / argument-form variants of one scene (the scene itself, i.e. the float64 values,
+    label numbers and mask truth values seen by the kernel, is unchanged)"""
+    img = bits_arr(c["image"])
+    cand = ["float64"]
+    if np.array_equal(img.astype(np.float32).astype(np.float64), img):
+        cand.append("float32")
+    if np.all(img == np.floor(img)):
+        for dt in ("int64", "int32", "uint16", "uint8", "int8"):
+            ii = np.iinfo(dt)
+            if img.min() >= ii.min and img.max() <= ii.max:
+                cand.append(dt)
+        if img.min() >= 0 and img.max() <= 1:
+            cand.append("bool")
+    c["idt"] = str(rng.choice(cand)) if rng.rand() < 0.6 else "float64"
+    lab = np.array(c["labels"])
+    if rng.rand() < 0.08 and lab.max() > 0:      # boolean label image: one object class
+        lab = (lab > 0).astype(int)
+        c["labels"] = lab.tolist()
+    ldts = [dt for dt in LAB_DTYPES if lab.max() <= lab_max(dt)]
+    if lab.max() == 1 and rng.rand() < 0.6:
+        ldts = ["bool"]
+    c["ldt"] = str(rng.choice(ldts)) if rng.rand() < 0.7 else "int64"
+    if rng.rand() < 0.35 and lab.max() > 0 and c["ldt"] != "bool":
+        # label values near the dtype maximum (capped at 2^31-1): renumber the largest label
+        top = lab_max(c["ldt"]) - int(rng.randint(0, 2))
+        if top > lab.max():
+            lab = np.where(lab == lab.max(), top, lab)
+            c["labels"] = lab.astype(int).tolist()
+    c["mdt"] = str(rng.choice(["bool", "bool", "uint8", "u255"]))
+    c["layout"] = str(rng.choice(["C", "C", "C", "F", "strided"]))
+    w = b2f(c["weight"])
+    forms = ["float", "np64"]
+    if w == int(w):
+        forms.append("int")
+    if float(np.float32(w)) == w:
+        forms.append("np32")
+    c["wpass"] = str(rng.choice(forms))
+    return c
+
+
 def _random_case(rng, mx, force=None):
     m, n = _shape(rng, mx)
     ik = str(rng.choice(["const", "quant", "dyadic", "rand", "int", "blocky", "blocky"]))
-    lk = str(rng.choice(["none", "one", "adjacent", "sparse", "sparse", "dense", "big"], p=[.04, .2, .2, .25, .15, .1, .06]))
-    mk = str(rng.choice(["full", "random", "wall"], p=[.4, .35, .25]))
-    wk = rng.choice(5)
-    w = [0.0, 2.0 ** -10, 1.0, 1000.0, float(rng.rand() * 3)][wk]
+    lk = str(rng.choice(["none", "one", "adjacent", "sparse", "sparse", "dense", "numbering"], p=[.04, .2, .2, .25, .12, .1, .09]))
+    mk = str(rng.choice(["full", "random", "wall", "bbox:top", "bbox:bottom", "bbox:left", "bbox:right"],
+                        p=[.3, .26, .16, .07, .07, .07, .07]))
+    w = [0.0, 2.0 ** -10, 1.0, 1000.0, float(rng.rand() * 3), -1.0, -0.375][rng.choice(7, p=[.22, .15, .2, .12, .21, .05, .05])]
     if ik == "int" or (ik == "blocky" and rng.rand() < 0.7):
         w = 0.0
     if force:
         ik = force.get("image", ik); w = force.get("weight", w); lk = force.get("labels", lk); mk = force.get("mask", mk)
     lab = _labels(rng, m, n, lk)
     msk = _mask(rng, m, n, mk)
-    c = mk_case(_image(rng, m, n, ik), lab, msk, w, "%s/%s/%s/w%s" % (ik, lk, mk, "0" if w == 0 else "+"))
-    c["layout"] = str(rng.choice(["C", "C", "C", "F", "strided", "dtypes"]))
+    if mk.startswith("bbox:") and not msk.any():
+        mk = "full"; msk = np.ones((m, n), bool)
+    if mk.startswith("bbox:"):
+        # a seeded component that touches the edge of the bounding box, image not constant there
+        ii, jj = np.nonzero(msk)
+        side = mk[5:]
+        pick = {"top": ii == ii.min(), "bottom": ii == ii.max(), "left": jj == jj.min(), "right": jj == jj.max()}[side]
+        k = int(rng.choice(np.nonzero(pick)[0]))
+        lab[ii[k], jj[k]] = int(rng.randint(1, 4))
+        if ik == "const":
+            ik = "rand"
+    if lk != "none" and rng.rand() < 0.15:
+        # seeds outside the mask: unmask some seed pixels (they keep label and distance 0, do not spread)
+        si, sj = np.nonzero(lab)
+        for k in range(len(si)):
+            if rng.rand() < 0.5:
+                msk[si[k], sj[k]] = False
+    c = mk_case(_image(rng, m, n, ik), lab, msk, w, "%s/%s/%s/w%s" % (ik, lk, mk.replace(":", "-"), "0" if w == 0 else "-" if w < 0 else "+"))
+    return _dress(rng, c, ik)
+
+
+def _thin_case(rng, m, n):
+    lab = np.zeros((m, n), int)
+    lab[0, 0] = 1; lab[m - 1, n - 1] = 2; lab[m // 2, n // 2] = 3
+    c = mk_case(rng.randint(0, 8, (m, n)) / 8.0, lab, rng.rand(m, n) < 0.95, 0.5, "thin")
     return c
+
+
+def _malformed_cases():
+    base = mk_case(np.arange(6.0).reshape(2, 3), [[1, 0, 0], [0, 0, 2]], np.ones((2, 3)), 1.0, "malformed")
+    res = []
+    for kind in ("mask_none", "labels_shape", "mask_shape"):
+        c = json.loads(json.dumps(base)); c["malformed"] = kind
+        res.append(c)
+    return res
 
 
 def _grow_case(rng=None):
@@ -503,21 +692,32 @@ def _corpus():
 
 def generate(ctx):
     rng = ctx.rng
-    cases = _corpus()
-    mx = ctx.n(10, 40)
-    for _ in range(ctx.n(330, 1500)):
-        big = (not ctx.quick()) and rng.rand() < 0.08
-        cases.append(_random_case(rng, mx if big else 10))
-    for _ in range(ctx.n(40, 800)):     # the F7 class: weight 0, inexact equal sums, two seeds
+    cases = _corpus() + _malformed_cases()
+    for _ in range(ctx.n(300, 1500)):
+        u = rng.rand()
+        mx = 7 if u < 0.8 else 12 if (ctx.quick() or u < 0.93) else 40
+        cases.append(_random_case(rng, mx))
+    for _ in range(ctx.n(16, 700)):     # the F7 class: weight 0, inexact equal sums, two seeds
         m, n = int(rng.randint(4, 9)), int(rng.randint(4, 9))
         cases.append(mk_case(_image(rng, m, n, "blocky"), _labels(rng, m, n, "adjacent"), np.ones((m, n), bool), 0.0, "f7class"))
     cases.append(_grow_case(rng))
+    tl = ctx.n(220, 600)                # thin long images (one coordinate far larger than the other)
+    cases.append(_thin_case(rng, tl, 3))
+    cases.append(_thin_case(rng, 3, tl))
     if not ctx.quick():
         m = n = 60
         lab = np.zeros((m, n), int); lab[30, 30] = 1; lab[5, 50] = 2
         cases.append(mk_case(rng.rand(m, n), lab, np.ones((m, n), bool), 0.01, "queue>1000"))
     for c in cases:
         ctx.count("layout:" + c.get("layout", "C"))
+        ctx.count("image-dtype:" + c.get("idt", "float64"))
+        ctx.count("labels-dtype:" + c.get("ldt", "int64"))
+        ctx.count("mask-dtype:" + c.get("mdt", "bool"))
+        ctx.count("weight-as:" + c.get("wpass", "float"))
+        if any("bbox-" + s in c["cls"] for s in ("top", "bottom", "left", "right")):
+            ctx.count("mask-bbox-short-of:" + c["cls"].split("bbox-")[1].split("/")[0])
+        if np.any((np.array(c["labels"]) > 0) & (np.array(c["mask"]) == 0)):
+            ctx.count("has-seed-outside-mask")
         ctx.count(c["cls"].split("/")[0] if not c["cls"].startswith(("edge", "corpus")) else "corpus")
         ctx.count("shape:%s" % ("1x1" if c["m"] * c["n"] == 1 else "line" if min(c["m"], c["n"]) == 1 else
                                 "<=5" if max(c["m"], c["n"]) <= 5 else "<=10" if max(c["m"], c["n"]) <= 10 else ">10"))
@@ -538,7 +738,8 @@ def shrink_candidates(case):
 
     def sub(rows, cols):
         return {"m": len(rows), "n": len(cols), "weight": case["weight"], "cls": case["cls"],
-                "layout": case.get("layout", "C"),
+                "layout": case.get("layout", "C"), "idt": case.get("idt", "float64"), "ldt": case.get("ldt", "int64"),
+                "mdt": case.get("mdt", "bool"), "wpass": case.get("wpass", "float"),
                 "image": [[case["image"][i][j] for j in cols] for i in rows],
                 "labels": [[case["labels"][i][j] for j in cols] for i in rows],
                 "mask": [[case["mask"][i][j] for j in cols] for i in rows]}
@@ -597,17 +798,6 @@ def kernel_crosscheck(ctx, cases, outs):
             vals = [x, x + y, x - y, x * y, np.sqrt(x)]
             e = [0x7FF8000000000000 if np.isnan(v) else f2b(v) for v in vals] + [1 if x < y else 0]
             exp.append(e)
-    got = coq_eval(ctx, "Model.Propagate", "entry_fops", [[a, b] for a, b in pats], "fops")
-    n = len(pats)
-    for (a, b), e, g in zip(pats, exp, got):
-        if g != e:
-            return "PrimFloat/bit-pattern validation differs from NumPy on (%#x, %#x): coq %s numpy %s" % (a, b, g, e), n
-        # on non-negative doubles the integer order of the bit patterns is the float order (used by the
-        # binary64 instance of the checker and by key_monotone)
-        if a < 2 ** 63 and b < 2 ** 63 and g[5] != (1 if a < b else 0):
-            return "bit-pattern order differs from PrimFloat.ltb on (%#x, %#x)" % (a, b), n
-    # the premise of C03_prop_check_b64_sound (float addition of non-negatives is monotone) on random
-    # triples, including neighbours one ulp apart and sums that round: evidence, not proof
     tri = []
     for _ in range(150):
         a = int(rng.randint(0, 2 ** 62)) % 0x7FF0000000000000
@@ -616,7 +806,19 @@ def kernel_crosscheck(ctx, cases, outs):
         if rng.rand() < 0.6:          # comparable magnitudes, so that the addition rounds
             c = (a & ~((1 << 54) - 1)) | int(rng.randint(0, 2 ** 54))
         tri.append([a, min(b, 0x7FF0000000000000), min(c, 0x7FF0000000000000)])
-    mono = coq_eval(ctx, "Spec.PropCheck", "entry_mono", tri, "mono")
+    with ThreadPoolExecutor(max_workers=2) as ex:
+        f1 = ex.submit(coq_eval, ctx, "Model.Propagate", "entry_fops", [[a, b] for a, b in pats], "fops")
+        f2 = ex.submit(coq_eval, ctx, "Spec.PropCheck", "entry_mono", tri, "mono")
+        got, mono = f1.result(), f2.result()
+    n = len(pats)
+    for (a, b), e, g in zip(pats, exp, got):
+        if g != e:
+            return "PrimFloat/bit-pattern validation differs from NumPy on (%#x, %#x): coq %s numpy %s" % (a, b, g, e), n
+        # on non-negative doubles the integer order of the bit patterns is the float order (used by the
+        # binary64 instance of the checker and by key_monotone)
+        if a < 2 ** 63 and b < 2 ** 63 and g[5] != (1 if a < b else 0):
+            return "bit-pattern order differs from PrimFloat.ltb on (%#x, %#x)" % (a, b), n
+    # plus64 monotone (now a theorem, C03_b64_add_monotone) re-evaluated on random triples as a sanity check
     for t3, g in zip(tri, mono):
         if g != [1, 1]:
             return "premise b64_add_monotone falsified (or Coq run failed) on %s: %s" % ([hex(x) for x in t3], g), n
